@@ -871,7 +871,7 @@ fn adapter_fact_checks(l: &[char]) -> Vec<(&'static str, bool)> {
 }
 fn adapter_facts(rep: &mut Report, rng: &mut Rng, thorough: bool, sources: &[String]) {
     let mut texts: Vec<Vec<char>> = vec![vec![]];
-    let mut add_name = |texts: &mut Vec<Vec<char>>, bytes: &[u8]| {
+    let add_name = |texts: &mut Vec<Vec<char>>, bytes: &[u8]| {
         let s = String::from_utf8_lossy(bytes).into_owned();
         let cs: Vec<char> = s.chars().collect();
         texts.push(cs.clone());
